@@ -261,9 +261,16 @@ class StringLiteral(Literal):
 
     def to_bytes(self):
         """Convert this string literal to zero terminated byte string."""
-        encoding = "latin1"
-        data = self.value.encode(encoding) + bytes([0])
-        return data
+        data = bytearray()
+        for char in self.value:
+            if ord(char) < 256:
+                # One byte per character (includes \x and octal escapes):
+                data.append(ord(char))
+            else:
+                # Universal character names beyond latin1: utf-8 encoded
+                data.extend(char.encode("utf-8"))
+        data.append(0)
+        return bytes(data)
 
 
 class CompoundLiteral(CExpression):
